@@ -893,7 +893,8 @@ type dvTask struct {
 	node     string
 	cs       fwktype.CycleState
 	rollback bool
-	phase    int // 0 = binding cycle not run yet, 1 = failed, Unreserve pending
+	alloc    dvAlloc // what Reserve committed in this cycle
+	phase    int     // 0 = binding cycle not run yet, 1 = failed, Unreserve pending
 }
 
 type dvKey struct {
@@ -1509,7 +1510,7 @@ func (s *dvSim) reserve(o *dvOpen) {
 	s.inFlight[name] = true
 	s.assumed[string(pod.UID)] = true
 	s.tagSharedUndercountedCard(node, alloc)
-	s.tasks = append(s.tasks, &dvTask{pod: pod, name: name, uid: string(pod.UID), node: node, cs: cs, rollback: o.op.Rollback})
+	s.tasks = append(s.tasks, &dvTask{pod: pod, name: name, uid: string(pod.UID), node: node, cs: cs, rollback: o.op.Rollback, alloc: alloc})
 	r.Event("schedule %s -> %s %s", name, node, dvAllocStr(alloc))
 	r.Sample("schedule %s -> %s %s", name, node, dvAllocStr(alloc))
 	for i := range reqs {
@@ -1644,8 +1645,8 @@ func (s *dvSim) stepTask(i int) {
 	}
 	ann := podCopy.Annotations[apiext.AnnotationDeviceAllocated]
 	r.OracleEval()
-	if h := s.reserved[t.name]; h == nil || !dvAllocEq(dvPodAlloc(r, podCopy), h.alloc) {
-		r.Fail("prebind", "annotation-differs-from-reservation", "PreBind of %s records %s, Reserve committed %v", t.name, ann, h)
+	if !dvAllocEq(dvPodAlloc(r, podCopy), t.alloc) {
+		r.Fail("prebind", "annotation-differs-from-reservation", "PreBind of %s records %s, Reserve committed %s", t.name, ann, dvAllocStr(t.alloc))
 	}
 	cur := s.st.pods[t.name]
 	if cur == nil || cur.UID != t.uid || cur.Node != "" {
